@@ -300,3 +300,6 @@ def run(run, tier, seed, replay=None):
         run.sample(dict(stream=name, case=jobs[len(jobs) // 2], impl_accepted=outs[len(jobs) // 2]["pkg"] is not None))
         total += len(jobs)
     run.coverage["traces_validated_against_impl"] = total
+    # C19E: the written design of the generated module (coq Model/C19EDesign.v) + the pipeline model against the implementation's package
+    from . import c19e
+    c19e.run_tie(run, tier, seed, streams, prims)
